@@ -222,6 +222,44 @@ def evalText (top : Node) (text : String) : List Ref :=
   | some (_, steps) => evalSteps top steps
   | none => []
 
+/-! ### the token tree a Pratt parser of XPath 3.x builds for a path text
+
+XPath 3.1 A.1: `PathExpr ::= "/" RelativePathExpr? | RelativePathExpr`,
+`RelativePathExpr ::= StepExpr ("/" StepExpr)*` (left associative), `StepExpr` = node test with
+`Predicate*` bound to the step, `AbbrevForwardStep ::= "@"? NodeTest`, `ForwardAxis "namespace::"`,
+`URIQualifiedName ::= BracedURILiteral NCName`, kind tests with their argument.  Printed in the
+s-expression notation of the implementation's `token.tree` (operator symbol first, string
+literals quoted), so that the real parser's tree for the real string can be compared with the
+recogniser's reading of the same text on every node. -/
+
+def qnameTree (ns loc : String) : String := "(Q{ ('" ++ ns ++ "') (" ++ loc ++ "))"
+
+def stepTree : Step → String
+  | .child nm p => "([ " ++ qnameTree nm.ns nm.loc ++ " (" ++ toString p ++ "))"
+  | .text p => "([ (text) (" ++ toString p ++ "))"
+  | .comment p => "([ (comment) (" ++ toString p ++ "))"
+  | .pi t p => "([ (processing-instruction (" ++ t ++ ")) (" ++ toString p ++ "))"
+  | .attr nm => if nm.ns = "" then "(@ (" ++ nm.loc ++ "))" else "(@ " ++ qnameTree nm.ns nm.loc ++ ")"
+  | .ns p =>
+    if p = "" then "([ (namespace (*)) (= " ++ qnameTree (String.ofList fnNamespaceC) "local-name" ++ " ('')))"
+    else "(namespace (" ++ p ++ "))"
+
+/-- `lhs/step/step…`, left associative -/
+def pathTreeFrom (lhs : String) : List Step → String
+  | [] => lhs
+  | s :: ss => pathTreeFrom ("(/ " ++ lhs ++ " " ++ stepTree s ++ ")") ss
+
+def tokenTree : PathKind → List Step → String
+  | .abs, [] => "(/)"
+  | .abs, s :: ss => pathTreeFrom ("(/ " ++ stepTree s ++ ")") ss
+  | .fromRoot, ss => pathTreeFrom (qnameTree (String.ofList fnNamespaceC) "root") ss
+
+/-- the recogniser's reading of a text, as a token tree (`UNREADABLE` if it is not in the language) -/
+def textTree (text : String) : String :=
+  match parsePath text.toList with
+  | some (k, steps) => tokenTree k steps
+  | none => "UNREADABLE"
+
 /-! names for which the text is unambiguous: every NCName qualifies (no `/ [ ) { } *`), and every
 namespace URI without `}` -/
 
